@@ -23,7 +23,7 @@ const WORDS: &[(&[u8], Option<Kw>)] = &[
     (b"UP", Some(Kw::Up)), (b"DOWN", Some(Kw::Down)),
     // near misses: must fall through to the underlying type
     (b"MAXI", None), (b"MAXIMU", None), (b"MAXIMUMS", None), (b"MA", None), (b"MINI", None), (b"MI", None), (b"DEFA", None), (b"DEFAUL", None), (b"DE", None), (b"DEFAULTS", None),
-    (b"U", None), (b"UPP", None), (b"DOW", None), (b"DOWNN", None), (b"D", None), (b"MAX1", None), (b"UP1", None), (b"INF", None), (b"NAN", None), (b"NINF", None), (b"POTATO", None), (b"ON", None),
+    (b"NINFinity", None), (b"INFinity", None), (b"ninfinity", None), (b"INFINITY", None), (b"NINFINIT", None), (b"U", None), (b"UPP", None), (b"DOW", None), (b"DOWNN", None), (b"D", None), (b"MAX1", None), (b"UP1", None), (b"INF", None), (b"NAN", None), (b"NINF", None), (b"POTATO", None), (b"ON", None),
 ];
 
 fn tokens(rng: &mut Rng, lit: &mut String) -> usize {
